@@ -293,7 +293,8 @@ theorem store_rep (x : Node K V) (m : Mem K V) :
           n := fun b => if b = id then (kvs.length : Int) else m.n b
           key := fun b j => if b = id then (kvs[j]?).map (·.1) else m.key b j
           val := fun b j => if b = id then (kvs[j]?).map (·.2) else m.val b j
-          child := fun b j => if b = id then (kids[j]?).map Node.id else m.child b j } id hnot
+          child := fun b j => if b = id then (kids[j]?).map Node.id else m.child b j
+          parent := fun b => if kids.any (fun c => c.id == b) then some id else m.parent b } id hnot
       refine ⟨NodeS.congr (y := .mk id kvs kids) hf ?_, NodeV.congr (y := .mk id kvs kids) hf ?_⟩
       · refine ⟨by simp [Node.id, Node.kvs], fun i hi => ?_, fun i _ => by simp [Node.id, Node.kids]⟩
         simp only [Node.kvs] at hi
